@@ -76,7 +76,6 @@ fn g_fit(src: &mut Src, obs: &mut Obs) -> CaseResult {
 }
 
 /// leaf lengths tried, largest first, when a member is pushed to the most its type can hold
-const LEAF_CAPS: &[usize] = &[3008, 1024, 676, 256, 255, 128, 77, 64, 48, 32, 16];
 
 /// The largest responses the types can express: every optional member present (each with
 /// probability 15/16; the enumerated cases set all of them) and every byte/text member grown to
@@ -164,6 +163,13 @@ fn check_fit(kind: Kind, model: &Value, off: i64, prior_kind: usize, all_transpo
     if m > 1 {
         for extra in [64usize, 256, 1024, 3072, 7609] {
             if all_transport || src.chance(1, 8) {
+                caps_to_try.push(extra);
+            }
+        }
+        // capacities beyond 16 bits (a buffer may be larger than any transport frame)
+        for extra in [65535usize, 65536, 65537, 65600, 131073] {
+            if src.chance(1, 12) {
+                obs.label("capacity>=65535");
                 caps_to_try.push(extra);
             }
         }
@@ -271,7 +277,7 @@ pub fn gens() -> Vec<Gen> {
     vec![G_FIT, G_CONCRETE, G_MAX]
 }
 
-pub const RULE: &str = "Response::serialize::<N> is instantiated for every N in 1..=520, 670..=700, 1020..=1030, 3005..=3020 and 64, 256, 512, 1024, 2048, 3072, 4096, 7609 (N is a const generic). For a generated response of any kind (C02 generator; every presence prefix enumerated) a capacity is drawn and a variable-length member (authData, credential id, signature, pin token, rp id, config ...) is resized so that the complete message size M satisfies N - M in {-2,-1,0,1,2}; where a kind cannot reach the drawn capacity the nearest instantiated capacity to M+offset is used. Every response is additionally serialised at N = 1, 2, 3 and occasionally at the transport sizes 64/256/1024/3072/7609. A second generator builds the largest responses the types can express (every optional member present, deprecated ones included, and every byte/text member grown to the longest length the public API accepts, found by trial; one member in eight left as generated) and serialises them at every transport size and, retuned, at the frontier of the nearest instantiated capacity. Prior buffer state rotates over empty / partially filled / completely filled with a sentinel. Oracle: expected = the complete message (the crate's own output into a 7609-byte buffer, accepted only after it passed C02's comparison with the reference model) if M <= N, else exactly [0x7F]; buffer after the call == expected for every prior state; no panic. Non-trivial: |N - M| <= 2 or a non-empty prior state; distinct by (kind, message, capacity); evaluations count (response, capacity, prior state) triples.";
+pub const RULE: &str = "Response::serialize::<N> is instantiated for every N in 1..=520, 670..=700, 1020..=1030, 3005..=3020 and 64, 256, 512, 1024, 2048, 3072, 4096, 7609, 65535, 65536, 65537, 65600, 131073 (N is a const generic). For a generated response of any kind (C02 generator; every presence prefix enumerated) a capacity is drawn and a variable-length member (authData, credential id, signature, pin token, rp id, config ...) is resized so that the complete message size M satisfies N - M in {-2,-1,0,1,2}; where a kind cannot reach the drawn capacity the nearest instantiated capacity to M+offset is used. Every response is additionally serialised at N = 1, 2, 3 and occasionally at the transport sizes 64/256/1024/3072/7609. A second generator builds the largest responses the types can express (every optional member present, deprecated ones included, and every byte/text member grown to the longest length the public API accepts, found by trial; one member in eight left as generated) and serialises them at every transport size and, retuned, at the frontier of the nearest instantiated capacity. Prior buffer state rotates over empty / partially filled / completely filled with a sentinel. Oracle: expected = the complete message (the crate's own output into a 7609-byte buffer, accepted only after it passed C02's comparison with the reference model) if M <= N, else exactly [0x7F]; buffer after the call == expected for every prior state; no panic. Non-trivial: |N - M| <= 2 or a non-empty prior state; distinct by (kind, message, capacity); evaluations count (response, capacity, prior state) triples.";
 pub const ASSUMPTIONS: &[&str] = &[
     "member encoding and key order are judged by C02 / C03; this check decides the framing only",
     "no response type of this crate exceeds about 3.1 KiB, so capacities 4096 and 7609 only ever see fitting messages",
@@ -320,7 +326,7 @@ pub fn run(ctx: &mut Ctx) {
     ctx.require(&[
         "kind:GetInfo", "kind:MakeCredential", "kind:GetAssertion", "kind:ClientPin", "kind:CredentialManagement", "kind:LargeBlobs", "kind:Reset",
         "frontier:N-M=0", "frontier:N-M=-1", "frontier:N-M=1", "frontier:N-M=-2", "frontier:N-M=2", "far:fits", "far:overflow",
-        "prior:empty", "prior:partial", "prior:full", "body:0", "body:256..1023", "capacity1-empty-map",
+        "prior:empty", "prior:partial", "prior:full", "body:0", "body:256..1023", "capacity1-empty-map", "capacity>=65535",
         "max:all-members-at-capacity:GetAssertion", "max:all-members-at-capacity:MakeCredential", "max:all-members-at-capacity:CredentialManagement", "max:all-members-at-capacity:GetInfo",
     ]);
 }
